@@ -7,8 +7,8 @@
 (* for that slot (nothing changed behind its back), and every observation of a  *)
 (* usable slot - in particular after a buffer was scribbled or released - must  *)
 (* return the held value, recompose to its text and read back as the same URI.  *)
-(* A rejected step poisons the rest of its episode (no cascades); the next      *)
-(* Reset starts afresh.                                                          *)
+(* The machine follows the recorded objects, so validation continues after a   *)
+(* rejected step; only a memory fault or a driver error ends an episode.        *)
 EXTENDS Trace_Algebra, UriSession, UriLanguage
 
 VARIABLES st, bad
@@ -115,6 +115,9 @@ SNext ==
      IF x.e = "Reset" THEN st' = SessionInit(1..x.ns, 1..x.nb) /\ bad' = FALSE
      ELSE IF bad THEN UNCHANGED <<st, bad>>
      ELSE LET r == StepOf(x) IN
-          /\ st' = r.st /\ bad' = (r.fails # <<>> /\ ~Explained(r.fails))
+          \* the machine follows the RECORDED objects, so a rejected step does not make later steps meaningless: validation goes on and every
+          \* later step is judged on its own operands (no cascades, and a defect that shows two steps later is still attributed to that
+          \* step's property).  Only a memory fault or a driver error ends the episode: the process state is not trustworthy after it.
+          /\ st' = r.st /\ bad' = ((HasField(x, "fault") /\ x.fault # 0) \/ (\E i \in 1..Len(r.fails) : r.fails[i].p = "HARNESS"))
           /\ r.fails = <<>> \/ RejOut([line |-> l, fails |-> r.fails, ev |-> x])
 =============================================================================
